@@ -7,6 +7,7 @@ require (
 	github.com/aliyun/alibaba-cloud-sdk-go v1.63.88
 	github.com/anishathalye/porcupine v1.3.0
 	github.com/vishvananda/netlink v1.2.1-beta.2
+	golang.org/x/time v0.7.0
 	k8s.io/api v0.32.2
 	k8s.io/apimachinery v0.32.2
 	sigs.k8s.io/controller-runtime v0.20.2
@@ -76,7 +77,6 @@ require (
 	golang.org/x/sys v0.31.0 // indirect
 	golang.org/x/term v0.30.0 // indirect
 	golang.org/x/text v0.23.0 // indirect
-	golang.org/x/time v0.7.0 // indirect
 	gomodules.xyz/jsonpatch/v2 v2.4.0 // indirect
 	google.golang.org/genproto/googleapis/rpc v0.0.0-20240826202546-f6391c0de4c7 // indirect
 	google.golang.org/grpc v1.65.0 // indirect
